@@ -18,7 +18,6 @@ import itertools
 import struct
 from uuid import UUID
 
-from srctools import dmx as _dmx
 from srctools.dmx import (
     NULL, Attribute, Color, Element, Quaternion, StubElement, Time, ValueType, Vec2, Vec4,
 )
